@@ -578,6 +578,12 @@ func c01R7(c *core.Ctx) {
 			okL = eng.SameValue(a[0], param(f, 1)) && isRoot
 		}
 		c.Check(okL, rule, fnName(f)+":matcher from root", f.Pos(), "the configured matcher runs once from the root over the whole ssid", "Lookup does not run the configured matcher once from t.root with the full ssid")
+		if okL {
+			// and on every path: no ssid is exempted from the direct walk (pubsub.Unsubscribe
+			// decides by this very Lookup whether the trie entry is removed)
+			always, w := eng.MustPass(f, nil, func(i ssa.Instruction) bool { return i == lk[0] })
+			c.Check(always, rule, fnName(f)+":matcher on every path", f.Pos(), "every Lookup walks the trie from the root", fmt.Sprintf("a path through Lookup skips the matcher (some ssids are exempted from the direct walk): subscribers holding exactly that filter are not found — neither for delivery nor by pubsub.Unsubscribe, which then leaves their trie entry behind: %v", w))
+		}
 	}
 }
 
